@@ -167,7 +167,7 @@ class RegModel:
     def op_ack(self, en):
         if en:
             self.r[EN_AA] |= 1
-            self.r[DYNPD] |= 1
+            self.r[DYNPD] |= 0x3F if self.lite else 1
             self.r[FEATURE] |= 4
         self.r[FEATURE] = (self.r[FEATURE] & 5) | (2 if en else 0)
         return OK
@@ -236,6 +236,11 @@ class RegModel:
         return OK
 
     def op_load_ack(self, buf, pipe):
+        if self.lite:
+            # documented reduction: no exceptions, invalid parameters have no effect
+            if 0 <= pipe <= 5 and 1 <= len(buf) <= 32 and not self.r[FEATURE] & 2:
+                self.op_ack(True)
+            return OK
         if not 0 <= pipe <= 5:
             return INDEX_ERROR
         if not 1 <= len(buf) <= 32:
